@@ -296,10 +296,8 @@ func supervise(id, tier string) int {
 }
 
 func distinct(res *engine.Result) int64 {
-	if res.Distinct > 0 {
-		return res.Distinct
-	}
-	return res.Counters["distinct_nontrivial"]
+	// hashed distinct cases plus cases counted distinct by construction (disjoint sub-spaces)
+	return res.Distinct + res.Counters["distinct_nontrivial"]
 }
 
 func writeEvidence(ch *engine.Check, res *engine.Result, tier string, nViol int, wall float64) {
